@@ -169,19 +169,23 @@ def repeatStr (s : Bytes) (rep : Int) : R Bytes :=
     past `1 << 31` signed-overflow defect). -/
 def shl32 (k : Nat) : R Nat := if k < 32 then .ok ((1 <<< k) % 4294967296) else .ub
 
+def checkSetPopBody (set : Bytes) (i : Nat) (bitset : Array Nat) : R (Array Nat) := do
+  let c ← idx set.toArray (i : Int)
+  let index := c >>> 5
+  let mask ← shl32 (c &&& 0x1F)
+  let w ← idx bitset (index : Int)
+  setIdx bitset (index : Int) (w ||| mask)
+
+def checkSetChkBody (bitset : Array Nat) (str : Bytes) (i : Nat) : R (Option Bool) := do
+  let c ← idx str.toArray (i : Int)
+  let index := c >>> 5
+  let mask ← shl32 (c &&& 0x1F)
+  let w ← idx bitset (index : Int)
+  pure (if w &&& mask = 0 then some false else none)
+
 def checkSet (set str : Bytes) : R Bool := do
-  let bitset ← forUp (fun i (bitset : Array Nat) => do
-      let c ← idx set.toArray (i : Int)
-      let index := c >>> 5
-      let mask ← shl32 (c &&& 0x1F)
-      let w ← idx bitset (index : Int)
-      setIdx bitset (index : Int) (w ||| mask)) set.length 0 (Array.replicate 8 0)
-  let r ← scanUp (fun i => do
-      let c ← idx str.toArray (i : Int)
-      let index := c >>> 5
-      let mask ← shl32 (c &&& 0x1F)
-      let w ← idx bitset (index : Int)
-      pure (if w &&& mask = 0 then some false else none)) str.length 0
+  let bitset ← forUp (checkSetPopBody set) set.length 0 (Array.replicate 8 0)
+  let r ← scanUp (checkSetChkBody bitset str) str.length 0
   pure (r.getD true)
 
 /-! ## the cfuns built on the KMP machine (`Lib/Kmp.lean` mirrors kmp_init / kmp_next / kmp_seti) -/
